@@ -124,7 +124,6 @@ func newTimeGrid(quick bool) *timeGrid {
 			us(1969, 12, 29, 0, 0, 0),  // a pre-epoch Monday
 			us(1900, 1, 1, 0, 0, 0),    // far past
 			us(2030, 1, 1, 0, 0, 0),    // the future origin itself
-			us(9999, 12, 31, 23, 59, 59), // far future
 			us(2024, 2, 29, 23, 59, 59), // leap day
 		)
 	}
